@@ -266,14 +266,14 @@ def main():
         vals.append((nonce, pt, aad, ts, list(m.regions['dst'].cells)))
     rows = '\n'.join('{%s,%s,%s,%d,%s},' % (go_bytes(a), go_bytes(b), go_bytes(c), d, go_bytes(e_)) for a, b, c, d, e_ in vals)
     src = '''package sm4
-import ("testing"; "bytes"; "crypto/cipher")
+import ("testing"; "bytes")
 func TestVerifReplay(t *testing.T) {
 	cases := []struct{ nonce, pt, aad []byte; ts int; want []byte }{
 %s
 	}
 	b, _ := NewCipher(%s)
 	for i, c := range cases {
-		a, err := cipher.NewGCMWithNonceAndTagSize(b, len(c.nonce), c.ts)
+		a, err := b.(gcmAble).NewGCM(len(c.nonce), c.ts)
 		if err != nil { t.Skip(err) }
 		if got := a.Seal(nil, c.nonce, c.pt, c.aad); !bytes.Equal(got, c.want) { t.Fatalf("case %%d: interpreter and real routine disagree", i) }
 	}
